@@ -372,7 +372,7 @@ class ShapeEngine:
                     return None
                 full = it.lower is None and it.upper is None
                 rev = full or (it.lower is None and it.upper is None)
-                out.append(base[i] if full else (base[i] if self._slice_keeps(it) else None))
+                out.append(base[i] if full else self._slice_dim(base[i], it))
                 i += 1
             else:
                 v = self.ev(it, env, ctx)
@@ -396,6 +396,67 @@ class ShapeEngine:
             res[first:first] = list(bshape)
             return tuple(res)
         return tuple(out)
+
+    @staticmethod
+    def _slice_dim(d, sl):
+        """Length of a constant-bounded slice of an axis of length d (axes are assumed at least as long as the constants):
+        [:k] -> k, [-k:] -> k, [a:b] -> b-a, [:-k] / [k:] -> 'd-k'.  Anything else: unknown."""
+        if sl.step is not None and not (isinstance(sl.step, ast.Constant) and sl.step.value in (None, 1, -1)):
+            return None
+
+        def const(x):
+            if x is None:
+                return None
+            if isinstance(x, ast.Constant) and isinstance(x.value, int) and not isinstance(x.value, bool):
+                return x.value
+            if isinstance(x, ast.UnaryOp) and isinstance(x.op, ast.USub) and isinstance(x.operand, ast.Constant) and isinstance(x.operand.value, int):
+                return -x.operand.value
+            return "?"
+        lo, hi = const(sl.lower), const(sl.upper)
+        if lo == "?" or hi == "?":
+            return None
+        if sl.step is not None and isinstance(sl.step, ast.Constant) and sl.step.value == -1:
+            return d if lo is None and hi is None else None
+        if lo is None and hi is None:
+            return d
+        if lo in (None, 0) and hi is not None:
+            if hi > 0:
+                return hi
+            if hi < 0 and isinstance(d, str) and "*" not in d and "-" not in d:
+                return f"{d}-{-hi}"
+            if hi < 0 and isinstance(d, int):
+                return d + hi
+            return None
+        if hi is None and lo is not None:
+            if lo < 0:
+                return -lo
+            if isinstance(d, str) and "*" not in d and "-" not in d:
+                return f"{d}-{lo}"
+            if isinstance(d, int):
+                return d - lo
+            return None
+        if lo is not None and hi is not None and lo >= 0 and hi >= lo:
+            return hi - lo
+        return None
+
+    @staticmethod
+    def _sum_dims(col):
+        """Sum of axis lengths for a concatenation: ints and at most one 'S-k' term with the ints adding up to k."""
+        if any(c is None for c in col):
+            return None
+        n = sum(c for c in col if isinstance(c, int))
+        syms = [c for c in col if isinstance(c, str)]
+        if not syms:
+            return n
+        if len(syms) == 1:
+            s0 = syms[0]
+            if "-" in s0 and "*" not in s0:
+                base, _, k = s0.rpartition("-")
+                if k.isdigit():
+                    k = int(k)
+                    return base if n == k else (f"{base}-{k - n}" if n < k else None)
+            return s0 if n == 0 else None
+        return None
 
     @staticmethod
     def _slice_keeps(sl):
@@ -469,7 +530,10 @@ class ShapeEngine:
                         d = declared.get(pnm)
                         if d is not None and self.is_shape(shp) and shp is not None and len(d) != len(shp):
                             self.alarm(mi, e, "rank-mismatch-call", f"`{pnm}` of {cq.rsplit('.', 1)[1]}.{f.attr} is documented with rank {len(d)} {tuple(d)} but receives shape {shp}", qual)
-                    return self.analyse(mfn, mmi, f"{cq}.{f.attr}", ash, {}, ctx["depth"] + 1, dict(self.class_self.get(cq, {})))
+                    r_ = self.analyse(mfn, mmi, f"{cq}.{f.attr}", ash, {}, ctx["depth"] + 1, dict(self.class_self.get(cq, {})))
+                    if r_ is not None:
+                        return r_
+                    # abstract / undecided method body: fall back to the generic method heuristics below
             recv = self.ev(f.value, env, ctx)
             m = f.attr
             if self.is_shape(recv) and recv is not None:
@@ -619,7 +683,7 @@ class ShapeEngine:
             for i in range(rank):
                 col = [p[i] for p in parts]
                 if i == ax:
-                    out.append(None)
+                    out.append(self._sum_dims(col))
                 else:
                     out.append(col[0] if all(c == col[0] for c in col) else None)
             return tuple(out)
